@@ -69,6 +69,16 @@ CHECKS = {
  "C27": ("E2-native", "exploration",
          "verify()/verify_with_positions() vs a reference predicate with its own fold (plonky2 Poseidon2 over the position-inserted 16 limbs) on reference-built valid paths of every depth 0..18 and single corruptions; from_unsorted accept/shape/rank/verify checks; and the circuit clause: the real leaf circuit (E1) is satisfiable for a real statement's tree path iff native verify() accepts it.",
          "DESIGN.md §4 C27", E2_NOTE + " Circuit clause shares E1's trusted base.", "differential testing: native verifier vs reference fold vs circuit evaluation"),
+
+ "C28": ("E2-native", "exploration",
+         "validate_circuit_config enumerated over the full 1 749 600-config product of per-knob value sets (each threshold with both neighbours) against the reference predicate; the six leaf/private/public circuit and prover constructors on failing configs (per violated clause) must return Err without panic and without build-sized allocation; the profiling CLI's own AggConfigArgs (compiled in from memprof/src/config.rs, parsed by clap) on generated argv: validate()==Ok => the built config passes the structural check.",
+         "DESIGN.md §4 C28", E2_NOTE + " The grid is exhaustive over the stated value sets, not over all usize values.", "exhaustive grid enumeration + generated CLI argument vectors against a reference predicate"),
+ "C29": ("E2-native", "exploration",
+         "A table of 33 public entry points x 14 counts (0, 1, 2, 63..66, 1000, 2^16, 2^32, 2^63, usize::MAX, ...): each invalid (entry, count) is probed in a child process whose allocator counts bytes and kills the child above 192 MiB; the call must return Err, not panic/abort, allocate < 64 MiB and create no file. Plus CircuitBinsConfig save/load over all 64x65 valid pairs, the legacy key, and generated config.json documents against a reference reading.",
+         "DESIGN.md §4 C29", E2_NOTE + " 'Before allocating or building' is observed as bytes allocated by the probed call (deterministic), not as wall time; a child exceeding the 120 s watchdog is inconclusive (exit 2).", "table-driven boundary testing in instrumented child processes + generated config documents"),
+ "C35": ("E2-native", "exploration",
+         "Grammar-based documents rendered from a model (field order, unknown nested fields, escapes, u64 edges) with every cap probed at +-1 (state_root plain / \\u-escaped / multi-byte, node count, node length, total length spread over k nodes, index count, whitespace padding to 8 MiB +-1) plus mutations (truncation, byte edits, duplicate and wrong-typed fields): never panics, over-cap or oversized => Err, Ok(d) => validate() Ok and d equals the model.",
+         "DESIGN.md §4 C35", E2_NOTE, "grammar-based generation with a model-derived oracle"),
 }
 
 NOT_YET = "not claimed yet: check not implemented in this round (design in DESIGN.md §4); will be claimed once its check is built and validated"
@@ -118,7 +128,7 @@ def main():
             {"name": "E1-gadget", "path": "harness/src/props/gadgetprops.rs",
              "serves_properties": [p for p in ["C30", "C31", "C10"] if p in CHECKS],
              "kind_free_text": "single-gadget circuits for common::gadgets evaluated through E1"},
-            {"name": "E2-native", "path": "harness/src/props/parsers.rs, harness/src/props/encodings.rs, harness/src/props/config.rs",
+            {"name": "E2-native", "path": "harness/src/props/parsers.rs, harness/src/props/encodings.rs, harness/src/props/config.rs, harness/src/props/jsonprops.rs, harness/src/util/alloc.rs",
              "serves_properties": [p for p in ["C24", "C25", "C26", "C27", "C28", "C29", "C35"] if p in CHECKS],
              "kind_free_text": "native API properties: deterministic generators (VERIF_SEED) + reference predicates/decoders, catch_unwind around every call, element-wise shrinking of failing vectors"},
             {"name": "E1-leaf", "path": "harness/src/engine/e1.rs, harness/src/engine/hints.rs, harness/src/leaf.rs, harness/src/props/leafdrv.rs",
